@@ -646,8 +646,8 @@ pub fn run(rep: &Report) -> i32 {
         .set("cross_searcher_histories", J::i(rep.get("cross_histories")))
         .set("cursor_interleavings", J::i(rep.get("cursor_interleavings")))
         .set("rule", J::s(format!(
-            "9 searchers (DFA / cNFA / nNFA; memmem, start-byte, rare-byte, packed prefilters; case folding; empty pattern; longest pattern 1..10) x 17 operations (incl. a 5000-byte haystack and a 70000-byte stream with a match across the 64 KiB buffer boundary). (1) histories: every operation sequence of length <= {} on one searcher, and every (searcher A, op) -> (fresh searcher B, op) pair; (2) every interleaving of next()/step calls on three live cursors (FindIter, OverlappingState, stream iterator) with <= {} steps each; (3) threads: every interleaving at the H3 scheduling points (head of each search-loop iteration, FindIter::next, prefilter / packed / Rabin-Karp entry) of 2 (3) operations on a shared searcher or a clone with <= {} preemptions, real OS threads under a token-passing scheduler, executions run to completion. Oracle everywhere: result == result on a never-used freshly built searcher. 'states' = complete executions (schedules + histories + cursor interleavings)",
-            depth, if t { 4 } else { 3 }, bound
+            "{} searchers (DFA / cNFA / nNFA; memmem, start-byte, rare-byte, packed prefilters; case folding; empty pattern; longest pattern 1..10; a state with four matches) x {} operations (incl. a 5000-byte haystack and a 70000-byte stream with a match across the 64 KiB buffer boundary). (1) histories: every operation sequence of length <= {} on one searcher, and every (searcher A, op) -> (fresh searcher B, op) pair; (2) every interleaving of next()/step calls on four live cursors (FindIter, OverlappingState, stream iterator, OverlappingState on a clone) with <= {} steps each (stream: one less); (3) threads: every interleaving at the H3 scheduling points (head of each search-loop iteration, FindIter::next, prefilter / packed / Rabin-Karp entry) of 2 (3) operations on a shared searcher or a clone with <= {} preemptions, real OS threads under a token-passing scheduler, executions run to completion. Oracle everywhere: result == result on a never-used freshly built searcher. 'states' = complete executions (schedules + histories + cursor interleavings)",
+            subjects().len(), NOPS, depth, if t { 4 } else { 3 }, bound
         )))
         .set("exhaustive", J::Bool(true))
         .set("bounds", J::s(format!("histories depth {}; preemption bound {} (3 threads: {}); scheduler self-tests: C(14,7)=3432 executions unbounded, 2/14/86 at bounds 0/1/2; racy fixture caught first at bound 1", depth, bound, bound - 1)))
